@@ -20,7 +20,7 @@ FAMILIES = {
     "F-EARLY": ("C02", "C03", "C05", "C06", "C07", "C08", "C12", "C14"),
     "F-LOCK": ("C01", "C02", "C04", "C08"),
 }
-QUICK_N = {"F-EARLY": 120, "F-LOCK": 80}
+QUICK_N = {"F-EARLY": 300, "F-LOCK": 200}
 THOROUGH_N = {"F-EARLY": 1500, "F-LOCK": 800}
 
 
